@@ -1,11 +1,29 @@
 #!/bin/bash
-# Re-runs every filed behaviour-preserving refactoring and every "freedom" patch against all
-# ten quick checks; every line must say QUIET. Development tool.
+# Re-runs every filed behaviour-preserving refactoring and every "freedom" patch against the
+# quick checks that exercise the code the patch touches (REFMATRIX_ALL=1: against all ten);
+# every line must say QUIET. Development tool.
 cd /verif
 ALL="C03 C05 C06 C07 C09 C10 C14 C16 C17 C18"
 for f in refactorings/C*/patch.diff refactorings/freedoms/*.patch; do
   id=$(basename $(dirname $f)); [ "$id" = freedoms ] && id=$(basename $f)
-  ./dev/mutcheck.sh /verif/$f $ALL | cut -c1-200 | while read -r line; do
+  props=""
+  files=$(grep '^+++ b/' $f | sed 's|^+++ b/||')
+  add() { for x in "$@"; do case " $props " in *" $x "*) ;; *) props="$props $x";; esac; done; }
+  for g in $files; do
+    case "$g" in
+      packet/accumulator.go) add C17 C06 C14 C05 C10;;
+      packet/io.go) add C16 C05 C07 C06;;
+      packet/packetwriter.go) add C18 C05;;
+      packet/adaptationfield*|packet/modify.go|pcr.go) add C03 C05;;
+      packet/*) add C03 C05 C17 C06 C07 C14 C16 C18;;
+      psi/*) add C06 C07 C14 C05;;
+      scte35/*) add C09 C10 C05;;
+      ebp/*|pes/*) add C05 C03;;
+      *) add $ALL;;
+    esac
+  done
+  [ -n "$REFMATRIX_ALL" ] && props="$ALL"
+  ./dev/mutcheck.sh /verif/$f $props | cut -c1-200 | while read -r line; do
     case "$line" in SURVIVED*) set -- $line; echo "QUIET $id $2";; *) echo "ALARM $id :: $line";; esac
   done
 done
